@@ -375,7 +375,10 @@ Qed.
 
 (** * coins *)
 Definition coins_ops_tx (t : tx) : cops :=
-  match coins_target t with Some a => [(coins_key a, t_amount t)] | None => [] end.
+  match coins_target t with
+  | Some a => if t_rty t =? ExecOk then [(coins_key a, t_amount t)] else []
+  | None => []
+  end.
 Definition coins_ops (txs : list tx) : cops := flat_map coins_ops_tx txs.
 Definition coins_del_ops_tx (t : tx) : cops :=
   match coins_target t with
@@ -389,9 +392,11 @@ Proof.
   induction txs as [|t txs IH]; intro vw; simpl; [reflexivity|].
   unfold coins_local_tx, coins_ops_tx.
   destruct (coins_target t) as [a|]; simpl.
-  - destruct (bump (coins_key a) (t_amount t) vw) as [vw1 l1] eqn:B.
-    pose proof (IH vw1) as E. destruct (coins_local txs vw1) as [vw2 l2]. simpl in *.
-    try rewrite B. simpl. exact E.
+  - destruct (t_rty t =? ExecOk); simpl.
+    + destruct (bump (coins_key a) (t_amount t) vw) as [vw1 l1] eqn:B.
+      pose proof (IH vw1) as E. destruct (coins_local txs vw1) as [vw2 l2]. simpl in *.
+      try rewrite B. simpl. exact E.
+    + pose proof (IH vw) as E. destruct (coins_local txs vw) as [vw2 l2]. exact E.
   - pose proof (IH vw) as E. destruct (coins_local txs vw) as [vw2 l2]. exact E.
 Qed.
 
@@ -413,10 +418,12 @@ Lemma coins_agree txs : forall m0 vw, Agree Qcoins m0 vw ->
 Proof.
   induction txs as [|t txs IH]; intros m0 vw A; simpl; [exact A|].
   unfold coins_local_tx. destruct (coins_target t) as [a|].
-  - pose proof (agree_bump Qcoins m0 vw (coins_key a) (t_amount t) A (coins_key_Q a)) as A1.
-    destruct (bump (coins_key a) (t_amount t) vw) as [vw1 l1]. simpl in A1.
-    pose proof (IH _ vw1 A1) as A2. destruct (coins_local txs vw1) as [vw2 l2]. simpl in *.
-    rewrite write_all_app. exact A2.
+  - destruct (t_rty t =? ExecOk).
+    + pose proof (agree_bump Qcoins m0 vw (coins_key a) (t_amount t) A (coins_key_Q a)) as A1.
+      destruct (bump (coins_key a) (t_amount t) vw) as [vw1 l1]. simpl in A1.
+      pose proof (IH _ vw1 A1) as A2. destruct (coins_local txs vw1) as [vw2 l2]. simpl in *.
+      rewrite write_all_app. exact A2.
+    + pose proof (IH m0 vw A) as A2. destruct (coins_local txs vw) as [vw2 l2]. exact A2.
   - pose proof (IH m0 vw A) as A2. destruct (coins_local txs vw) as [vw2 l2]. exact A2.
 Qed.
 
@@ -438,10 +445,12 @@ Lemma coins_keys txs : forall vw, keys_in Qcoins (snd (coins_local txs vw)).
 Proof.
   induction txs as [|t txs IH]; intro vw; simpl; [apply keys_in_nil|].
   unfold coins_local_tx. destruct (coins_target t) as [a|].
-  - pose proof (bump_keys Qcoins (coins_key a) (t_amount t) vw (coins_key_Q a)) as K1.
-    destruct (bump (coins_key a) (t_amount t) vw) as [vw1 l1].
-    pose proof (IH vw1) as K2. destruct (coins_local txs vw1) as [vw2 l2]. simpl in *.
-    apply keys_in_app; assumption.
+  - destruct (t_rty t =? ExecOk).
+    + pose proof (bump_keys Qcoins (coins_key a) (t_amount t) vw (coins_key_Q a)) as K1.
+      destruct (bump (coins_key a) (t_amount t) vw) as [vw1 l1].
+      pose proof (IH vw1) as K2. destruct (coins_local txs vw1) as [vw2 l2]. simpl in *.
+      apply keys_in_app; assumption.
+    + pose proof (IH vw) as K2. destruct (coins_local txs vw) as [vw2 l2]. exact K2.
   - pose proof (IH vw) as K2. destruct (coins_local txs vw) as [vw2 l2]. exact K2.
 Qed.
 
@@ -458,14 +467,12 @@ Proof.
   - pose proof (IH vw) as K2. destruct (coins_dellocal txs vw) as [vw2 l2]. exact K2.
 Qed.
 
-(** under the guard the removal ops are the negated add ops, in reverse order *)
-Lemma coins_del_ops_guard txs : forallb local_ok_tx txs = true ->
-  coins_del_ops (rev txs) = neg_ops (rev (coins_ops txs)).
+(** the removal ops are the negated add ops, in reverse order (both skip failed transactions) *)
+Lemma coins_del_ops_neg txs : coins_del_ops (rev txs) = neg_ops (rev (coins_ops txs)).
 Proof.
-  induction txs as [|t txs IH]; simpl; [reflexivity|]. intro G.
-  apply andb_true_iff in G as [G1 G2].
+  induction txs as [|t txs IH]; simpl; [reflexivity|].
   unfold coins_del_ops, coins_ops in *. rewrite flat_map_app. simpl. rewrite app_nil_r.
-  rewrite IH by exact G2. rewrite rev_app_distr. unfold neg_ops. rewrite map_app. f_equal.
-  unfold coins_del_ops_tx, coins_ops_tx, local_ok_tx in *.
-  destruct (coins_target t); [|reflexivity]. rewrite G1. reflexivity.
+  rewrite IH. rewrite rev_app_distr. unfold neg_ops. rewrite map_app. f_equal.
+  unfold coins_del_ops_tx, coins_ops_tx.
+  destruct (coins_target t); [|reflexivity]. destruct (t_rty t =? ExecOk); reflexivity.
 Qed.
